@@ -132,6 +132,16 @@ fn history_case(tape: &[u8], st: &mut Stats) -> Vec<Violation> {
                     flat.push((name.clone(), fi));
                     entries.push(Entry { name, kind: Kind::File(files[fi].clone().into_bytes()), class: "eligible" });
                 }
+                // inert siblings (Foundry test files, other files) must not disturb the verdicts of the others
+                let n_inert = t.below(3);
+                for j in 0..n_inert {
+                    let name = *t.pick(&["A.t.sol", "0.t.sol", "Zz.T.sol", "README", "a.sol.txt", ".t.sol"]);
+                    if entries.iter().any(|e| e.name == name) {
+                        continue;
+                    }
+                    let content: Vec<u8> = if j % 2 == 0 { tree::POOL[0].as_bytes().to_vec() } else { b"not solidity {{{".to_vec() };
+                    entries.push(Entry { name: name.to_string(), kind: Kind::File(content), class: "inert" });
+                }
                 if t.chance(140) {
                     // a sub-directory whose files reuse the base names of the parent's files
                     let m = t.range(1, 3);
